@@ -462,3 +462,36 @@ Proof.
   destruct (ne =? 0). { do 4 eexists. split; eauto. }
   cbn [fst]. apply evict_loop_ok; auto.
 Qed.
+
+(* ---------- the executable eviction law implies the theorem's predicate ---------- *)
+Lemma call_eligible_sound pods c : call_eligible pods c = true ->
+  exists p, In p pods /\ p_id p = fst c /\ preemptable p = true /\ critical p = false.
+Proof.
+  unfold call_eligible, find_pod. destruct (find _ pods) as [p|] eqn:F; [|discriminate].
+  intros E. apply find_some in F as [Hp Hid]. apply Z.eqb_eq in Hid.
+  unfold eligible in E. apply andb_true_iff in E as [E1 E2]. apply negb_true_iff in E2.
+  exists p. auto.
+Qed.
+
+Lemma law_evict_sound res pods calls after :
+  nodupb (map p_id pods) = true -> law_evict res pods calls after = true ->
+  (forall c, In c calls ->
+     exists p, In p pods /\ p_id p = fst c /\ preemptable p = true /\ critical p = false) /\
+  (length (filter (fun c => snd c) calls) <= 1)%nat.
+Proof.
+  intros ND. unfold law_evict. rewrite ND. intros H.
+  repeat (apply andb_true_iff in H as [H ?]).
+  split.
+  - rewrite forallb_forall in H. intros c Hc. apply call_eligible_sound. auto.
+  - match goal with X : Nat.leb _ 1 = true |- _ => apply Nat.leb_le in X; unfold succeeded in X; rewrite map_length in X; exact X end.
+Qed.
+
+Lemma law_cleanup_sound pods calls after :
+  nodupb (map p_id pods) = true -> law_cleanup pods calls after = true ->
+  forall c, In c calls ->
+    exists p, In p pods /\ p_id p = fst c /\ preemptable p = true /\ critical p = false.
+Proof.
+  intros ND. unfold law_cleanup. rewrite ND. intros H.
+  repeat (apply andb_true_iff in H as [H ?]).
+  rewrite forallb_forall in H. intros c Hc. apply call_eligible_sound. auto.
+Qed.
